@@ -1,6 +1,6 @@
 //@ property: C16 C10
 //@ mount: src/script.rs
-//@ functions: src/script.rs::Instructions::next, src/script.rs::Script::instructions, src/script.rs::Script::instructions_minimal, src/script.rs::Builder::into_script
+//@ functions: src/script.rs::Instructions::next, src/script.rs::Builder::push_opcode, src/script.rs::Builder::push_slice, src/script.rs::Builder::push_int, src/script.rs::Builder::push_verify, src/script.rs::Script::instructions, src/script.rs::Script::instructions_minimal, src/script.rs::Builder::into_script
 //
 // `Instructions` is a (remaining slice, enforce_minimal) pair, so a contract for ONE `next()` on an arbitrary
 // state is the whole contract of the iterator: the step harnesses below are loop-free and full-domain for every
@@ -140,78 +140,92 @@ fn instr_next_step_pushdata4() {
     kani::cover!(hdr[0] == 0x4e && hdr[3] == 0 && hdr[4] == 0 && minimal && len > 65_541);
 }
 
-// ---- composition: any sequence of K builder operations parses back to those operations ---------------------
+// ---- composition: sequences of builder operations parse back to those operations ----------------------------
+// Measured: with a symbolic choice of operation the builder's Vec length becomes symbolic and every `push` drags a
+// (infeasible but unpruned) reallocation of symbolic size along - 7 GB for ONE operation.  The sequences are therefore
+// enumerated with CONCRETE operation kinds (macro-expanded, straight-line), so that all lengths stay constants; what
+// stays symbolic is the content: opcode bytes, data bytes.  Integers are the concrete boundary values listed below
+// (the full script-number range is covered by builder_push_int in c16_builder.rs).
 #[derive(Clone, Copy)]
 struct Exp { push: bool, op: u8, data: [u8; 4], n: usize }
+const NOEXP: Exp = Exp { push: false, op: 0, data: [0; 4], n: 0 };
 
 fn fold(op: u8) -> Option<u8> {
     match op { 0x87 => Some(0x88), 0x9c => Some(0x9d), 0xac => Some(0xad), 0xae => Some(0xaf), 0xc1 => Some(0xc2), _ => None }
 }
 
-/// apply one symbolic builder operation; mirror it in the expectation list
-fn any_op(b: Builder, exp: &mut [Exp; 4], k: &mut usize, last_is_op: &mut bool, risky: &mut bool) -> Builder {
-    let kind: u8 = kani::any();
-    kani::assume(kind < 4);
-    if kind == 0 {
-        // an opcode that is not itself a push header
-        let op: u8 = kani::any();
-        kani::assume(op > 0x4e);
-        exp[*k] = Exp { push: false, op, data: [0; 4], n: 0 };
-        *k += 1;
-        *last_is_op = true;
-        b.push_opcode(opcodes::All::from(op))
-    } else if kind == 1 {
-        // a data push of 0..=3 symbolic bytes
-        let d: [u8; 4] = kani::any();
-        let n: usize = kani::any();
-        kani::assume(n <= 3);
-        if n == 1 && (d[0] == 0x81 || (d[0] >= 1 && d[0] <= 16)) { *risky = true; }
-        exp[*k] = Exp { push: true, op: 0, data: d, n };
-        *k += 1;
-        *last_is_op = false;
-        b.push_slice(&d[..n])
-    } else if kind == 2 {
-        // an integer in -1..=300 (small-integer opcodes, one- and two-byte script numbers)
-        let v: i64 = kani::any();
-        kani::assume(v >= -1 && v <= 300);
-        if v == 0 {
-            // OP_0 parses as the empty push
-            exp[*k] = Exp { push: true, op: 0, data: [0; 4], n: 0 };
-        } else if v == -1 || v <= 16 {
-            exp[*k] = Exp { push: false, op: (0x50 + v) as u8, data: [0; 4], n: 0 };
-        } else if v < 0x80 {
-            exp[*k] = Exp { push: true, op: 0, data: [v as u8, 0, 0, 0], n: 1 };
-        } else {
-            exp[*k] = Exp { push: true, op: 0, data: [v as u8, (v >> 8) as u8, 0, 0], n: 2 };
+const KINDS: usize = 12;
+/// kind 0: opcode with a VERIFY form (symbolic among the five); 1: any other opcode > 0x4e (symbolic);
+/// 2: empty data push; 3: one symbolic byte; 4: three symbolic bytes;
+/// 5..=10: push_int(-1), push_int(0), push_int(16), push_int(17), push_int(128), push_int(-300);  11: push_verify
+struct St { exp: [Exp; 4], k: usize, risky: bool }
+
+fn apply(kind: usize, b: Builder, st: &mut St) -> Builder {
+    let k = st.k;
+    match kind {
+        0 => {
+            let op: u8 = kani::any();
+            kani::assume(fold(op).is_some());
+            st.exp[k] = Exp { push: false, op, data: [0; 4], n: 0 };
+            st.k += 1;
+            b.push_opcode(opcodes::All::from(op))
         }
-        *k += 1;
-        // a small-integer opcode is remembered as "last opcode" but has no VERIFY form
-        *last_is_op = v != 0 && v <= 16;
-        b.push_int(v)
-    } else {
-        // push_verify: folds into the directly preceding opcode when that has a VERIFY form
-        let folded = if *last_is_op && *k > 0 && !exp[*k - 1].push { fold(exp[*k - 1].op) } else { None };
-        match folded {
-            Some(f) => { exp[*k - 1].op = f; }
-            None => { exp[*k] = Exp { push: false, op: 0x69, data: [0; 4], n: 0 }; *k += 1; }
+        1 => {
+            let op: u8 = kani::any();
+            kani::assume(op > 0x4e && fold(op).is_none());
+            st.exp[k] = Exp { push: false, op, data: [0; 4], n: 0 };
+            st.k += 1;
+            b.push_opcode(opcodes::All::from(op))
         }
-        *last_is_op = true;
-        b.push_verify()
+        2 => {
+            st.exp[k] = Exp { push: true, op: 0, data: [0; 4], n: 0 };
+            st.k += 1;
+            b.push_slice(&[])
+        }
+        3 => {
+            let x: u8 = kani::any();
+            // `01 x` for x in 1..=16 / 0x81 is what push_slice emits; instructions_minimal() refuses it (observation)
+            if x == 0x81 || (x >= 1 && x <= 16) { st.risky = true; }
+            st.exp[k] = Exp { push: true, op: 0, data: [x, 0, 0, 0], n: 1 };
+            st.k += 1;
+            b.push_slice(&[x])
+        }
+        4 => {
+            let d: [u8; 3] = kani::any();
+            st.exp[k] = Exp { push: true, op: 0, data: [d[0], d[1], d[2], 0], n: 3 };
+            st.k += 1;
+            b.push_slice(&d)
+        }
+        5 => { st.exp[k] = Exp { push: false, op: 0x4f, data: [0; 4], n: 0 }; st.k += 1; b.push_int(-1) }
+        6 => { st.exp[k] = Exp { push: true, op: 0, data: [0; 4], n: 0 }; st.k += 1; b.push_int(0) } // OP_0 reads as the empty push
+        7 => { st.exp[k] = Exp { push: false, op: 0x60, data: [0; 4], n: 0 }; st.k += 1; b.push_int(16) }
+        8 => { st.exp[k] = Exp { push: true, op: 0, data: [17, 0, 0, 0], n: 1 }; st.k += 1; b.push_int(17) }
+        9 => { st.exp[k] = Exp { push: true, op: 0, data: [0x80, 0x00, 0, 0], n: 2 }; st.k += 1; b.push_int(128) }
+        10 => { st.exp[k] = Exp { push: true, op: 0, data: [0x2c, 0x81, 0, 0], n: 2 }; st.k += 1; b.push_int(-300) }
+        _ => {
+            // push_verify folds into the directly preceding element iff that is an opcode with a VERIFY form
+            let folded = if k > 0 && !st.exp[k - 1].push { fold(st.exp[k - 1].op) } else { None };
+            match folded {
+                Some(f) => { st.exp[k - 1].op = f; }
+                None => { st.exp[k] = Exp { push: false, op: 0x69, data: [0; 4], n: 0 }; st.k += 1; }
+            }
+            b.push_verify()
+        }
     }
 }
 
-fn check_parse(s: &Script, exp: &[Exp; 4], k: usize, minimal: bool) {
+fn check_parse(s: &Script, st: &St, minimal: bool) {
     let mut it = if minimal { s.instructions_minimal() } else { s.instructions() };
     let mut i = 0;
-    while i < 4 {
-        if i < k {
+    while i < 3 {
+        if i < st.k {
             match it.next() {
-                Some(Ok(Instruction::Op(op))) => assert!(!exp[i].push && exp[i].op == op.into_u8()),
+                Some(Ok(Instruction::Op(op))) => assert!(!st.exp[i].push && st.exp[i].op == op.into_u8()),
                 Some(Ok(Instruction::PushBytes(p))) => {
-                    assert!(exp[i].push && p.len() == exp[i].n);
+                    assert!(st.exp[i].push && p.len() == st.exp[i].n);
                     let mut j = 0;
                     while j < 3 {
-                        if j < p.len() { assert!(p[j] == exp[i].data[j]); }
+                        if j < p.len() { assert!(p[j] == st.exp[i].data[j]); }
                         j += 1;
                     }
                 }
@@ -224,38 +238,78 @@ fn check_parse(s: &Script, exp: &[Exp; 4], k: usize, minimal: bool) {
     assert!(it.next().is_none());
 }
 
-macro_rules! compose {
-    ($name:ident, $k:expr) => {
+fn finish(b: Builder, st: &St) {
+    let s = ManuallyDrop::new(b.into_script());
+    check_parse(&s, st, false);
+    if !st.risky {
+        check_parse(&s, st, true);
+    }
+}
+
+fn scenario2(k1: usize, k2: usize) {
+    let mut st = St { exp: [NOEXP; 4], k: 0, risky: false };
+    let b = apply(k1, Builder::new(), &mut st);
+    let b = apply(k2, b, &mut st);
+    finish(b, &st);
+}
+fn scenario3(k1: usize, k2: usize, k3: usize) {
+    let mut st = St { exp: [NOEXP; 4], k: 0, risky: false };
+    let b = apply(k1, Builder::new(), &mut st);
+    let b = apply(k2, b, &mut st);
+    let b = apply(k3, b, &mut st);
+    finish(b, &st);
+}
+macro_rules! all2 { ($a:expr) => { all2!($a; 0, 1, 2, 3, 4, 5, 6, 7, 8, 9, 10, 11); }; ($a:expr; $($b:expr),*) => { $( scenario2($a, $b); )* }; }
+macro_rules! all3 { ($a:expr, $b:expr) => { all3!($a, $b; 0, 1, 2, 3, 4, 5, 6, 7, 8, 9, 10, 11); }; ($a:expr, $b:expr; $($c:expr),*) => { $( scenario3($a, $b, $c); )* }; }
+
+macro_rules! compose2 {
+    ($name:ident, $a:expr) => {
         #[kani::proof]
-        #[kani::unwind(8)]
+        #[kani::unwind(6)] // push_int's script-number Vec is iterated as a heap slice (not constant-bounded for CBMC)
         fn $name() {
-            let mut exp = [Exp { push: false, op: 0, data: [0; 4], n: 0 }; 4];
-            let mut k = 0usize;
-            let mut last_is_op = false;
-            let mut risky = false;
-            let mut b = Builder::new();
-            let mut i = 0;
-            while i < $k {
-                b = any_op(b, &mut exp, &mut k, &mut last_is_op, &mut risky);
-                i += 1;
-            }
-            let s = ManuallyDrop::new(b.into_script());
-            check_parse(&s, &exp, k, false);
-            if !risky {
-                check_parse(&s, &exp, k, true);
-            }
-            kani::cover!(k == $k);
-            kani::cover!(k < $k || $k == 1); // a fold happened
-            kani::cover!(risky);
+            let _ = KINDS;
+            all2!($a);
+            kani::cover!(true);
         }
     };
 }
-//@ harness: builder_compose_1 class=B tier=quick bound="1 builder operation from {opcode > 0x4e, data push of 0..=3 bytes, push_int -1..=300, push_verify}"
-//@ clause: iterating the script built by one builder operation yields exactly that operation (instructions(), and instructions_minimal() unless a single byte 1..=16/0x81 was pushed as data)
-compose!(builder_compose_1, 1);
-//@ harness: builder_compose_2 class=B tier=quick bound="2 builder operations, same alphabet" timeout=900
-//@ clause: same for every sequence of 2 operations, including VERIFY folding after opcodes and no folding after data / small integers
-compose!(builder_compose_2, 2);
-//@ harness: builder_compose_3 class=B tier=thorough bound="3 builder operations, same alphabet" timeout=1800
-//@ clause: same for every sequence of 3 operations
-compose!(builder_compose_3, 3);
+macro_rules! compose3 {
+    ($name:ident, $a:expr, $b:expr) => {
+        #[kani::proof]
+        #[kani::unwind(6)]
+        fn $name() {
+            all3!($a, $b);
+            kani::cover!(true);
+        }
+    };
+}
+//@ harness: builder_compose2_op class=B tier=quick bound="2 operations: first = opcode with VERIFY form, second = each of the 12 kinds (5 opcodes / other opcode / data 0,1,3 bytes / ints -1,0,16,17,128,-300 / push_verify)" timeout=900
+//@ clause: iterating the script built by two builder operations yields exactly those operations (instructions(); also instructions_minimal() unless a single byte 1..=16/0x81 was pushed as data); push_verify folds exactly into a directly preceding EQUAL/NUMEQUAL/CHECKSIG/CHECKMULTISIG/CHECKSIGFROMSTACK
+compose2!(builder_compose2_op, 0);
+//@ harness: builder_compose2_opn class=B tier=quick bound="2 operations: first = any non-foldable opcode > 0x4e, second = each of the 12 kinds" timeout=900
+//@ clause: same; push_verify after any other opcode appends OP_VERIFY
+compose2!(builder_compose2_opn, 1);
+//@ harness: builder_compose2_d0 class=B tier=quick bound="2 operations: first = empty data push, second = each of the 12 kinds" timeout=900
+//@ clause: same; data is never folded
+compose2!(builder_compose2_d0, 2);
+//@ harness: builder_compose2_d1 class=B tier=quick bound="2 operations: first = 1-byte data push (any byte), second = each of the 12 kinds" timeout=900
+//@ clause: same; a data byte equal to a foldable opcode is not folded
+compose2!(builder_compose2_d1, 3);
+//@ harness: builder_compose2_d3 class=B tier=quick bound="2 operations: first = 3-byte data push (any bytes), second = each of the 12 kinds" timeout=900
+//@ clause: same
+compose2!(builder_compose2_d3, 4);
+//@ harness: builder_compose2_int_small class=B tier=quick bound="2 operations: first = push_int(16), second = each of the 12 kinds" timeout=900
+//@ clause: same; small-integer opcodes are remembered as last opcode but have no VERIFY form
+compose2!(builder_compose2_int_small, 7);
+//@ harness: builder_compose2_int_wide class=B tier=quick bound="2 operations: first = push_int(128), second = each of the 12 kinds" timeout=900
+//@ clause: same; script numbers are data pushes
+compose2!(builder_compose2_int_wide, 9);
+//@ harness: builder_compose2_verify class=B tier=quick bound="2 operations: first = push_verify on the empty builder, second = each of the 12 kinds" timeout=900
+//@ clause: same; push_verify on an empty builder appends OP_VERIFY, a second push_verify appends another
+compose2!(builder_compose2_verify, 11);
+//@ harness: builder_compose3_op_verify class=B tier=thorough bound="3 operations: foldable opcode, push_verify, then each of the 12 kinds" timeout=1800
+//@ clause: same for three operations: after a fold the VERIFY form is the last opcode and is not folded again
+compose3!(builder_compose3_op_verify, 0, 11);
+//@ harness: builder_compose3_d1_op class=B tier=thorough bound="3 operations: 1-byte data push, foldable opcode, then each of the 12 kinds" timeout=1800
+//@ clause: same for three operations: folding after data + opcode touches only the opcode
+compose3!(builder_compose3_d1_op, 3, 0);
